@@ -30,7 +30,7 @@ import (
 
 type NetFault struct {
 	At   int    `json:"at"`   // 1-based request number (all hosts)
-	Kind string `json:"kind"` // lose-request | lose-response | 500 | 503 | stream-error | truncate | flip | restart | delay
+	Kind string `json:"kind"` // lose-request | lose-response | 500 | 503 | 404 | stream-error | truncate | flip | restart | delay | empty-packs (from this request on every packfile reply is a valid, empty packfile)
 	Arg  int    `json:"arg,omitempty"`
 }
 
@@ -53,6 +53,12 @@ type SimNet struct {
 	EOFLast bool
 	Stats   NetStats
 	Log     []string
+	// OpBudget > 0: at most that many requests may follow OpStart (set by the executor before each
+	// operation); beyond it requests fail and Storm is set (a client that polls without end)
+	OpBudget   int
+	OpStart    int
+	Storm      bool
+	emptyPacks bool
 }
 
 func NewSimNet() *SimNet {
@@ -111,6 +117,15 @@ func (n *SimNet) roundTrip(req *http.Request) (*http.Response, error) {
 			fault = &n.Faults[i]
 		}
 	}
+	if n.OpBudget > 0 && num-n.OpStart > n.OpBudget {
+		n.Storm = true
+		n.mu.Unlock()
+		return nil, fmt.Errorf("simnet: more than %d requests in one operation", n.OpBudget)
+	}
+	if fault != nil && fault.Kind == "empty-packs" {
+		n.emptyPacks = true
+		n.Stats.Fired["empty-packs"]++
+	}
 	h := n.hosts[req.URL.Host]
 	srv := n.servers[req.URL.Host]
 	n.Stats.PathCounts[req.Method+" "+req.URL.Path]++
@@ -135,11 +150,14 @@ func (n *SimNet) roundTrip(req *http.Request) (*http.Response, error) {
 		case "lose-request":
 			fire(fault.Kind)
 			return nil, errors.New("simnet: connection reset before the request was delivered")
-		case "500", "503":
+		case "500", "503", "404":
+			// answered by something in front of the server (proxy, wrong path): plain text, not the API's JSON error
 			fire(fault.Kind)
 			code := 500
 			if fault.Kind == "503" {
 				code = 503
+			} else if fault.Kind == "404" {
+				code = 404
 			}
 			return &http.Response{StatusCode: code, Status: fmt.Sprintf("%d injected", code), Header: http.Header{"Content-Type": {"text/plain"}},
 				Body: io.NopCloser(strings.NewReader("injected server error")), Request: req, ProtoMajor: 1, ProtoMinor: 1}, nil
@@ -162,9 +180,20 @@ func (n *SimNet) roundTrip(req *http.Request) (*http.Response, error) {
 	resp.Request = req
 	data, _ := io.ReadAll(resp.Body)
 	n.Stats.BytesDown += len(data)
+	if n.emptyPacks && strings.Contains(req.URL.Path, "upload-pack") && resp.Header.Get("Content-Type") != "application/x-wrgl-packfile" {
+		// the hostile remote answers every upload-pack request with a packfile
+		resp.StatusCode, resp.Status = 200, "200 OK"
+		resp.Header.Set("Content-Type", "application/x-wrgl-packfile")
+	}
 	if resp.Header.Get("Content-Type") == "application/x-wrgl-packfile" {
 		n.Stats.Packfiles++
 		n.Stats.PackBytes += len(data)
+		if n.emptyPacks {
+			// a remote that keeps answering with well-formed packfiles that hold nothing
+			var eb bytes.Buffer
+			packfile.NewPackfileWriter(&eb)
+			data = eb.Bytes()
+		}
 	}
 	if fault != nil {
 		switch fault.Kind {
@@ -220,16 +249,16 @@ type rpSession struct {
 }
 
 type RefServer struct {
-	DB    objects.Store
-	RS    ref.Store
+	DB objects.Store
+	RS ref.Store
 	// OpenRS, when set, opens the ref store for the duration of one request
 	// (a database handle must not outlive the bubble it was opened in)
 	OpenRS func() (ref.Store, func(), error)
-	Knobs ServerKnobs
-	mu    sync.Mutex
-	up    map[string]*upSession
-	rp    map[string]*rpSession
-	seq   int
+	Knobs  ServerKnobs
+	mu     sync.Mutex
+	up     map[string]*upSession
+	rp     map[string]*rpSession
+	seq    int
 	// observations for the oracles
 	Restarts    int
 	RefUpdates  []RefTransition
